@@ -49,6 +49,15 @@ def family(name, orient):
         sp = lambda z: us / 0.4 * np.log(z / (0.5 * z0))  # noqa
         K = lambda z: 0.4 * us * z  # noqa
         return (lambda z: cu * sp(z), lambda z: cv * sp(z), K, K, K)
+    if name == "veer":
+        # wind DIRECTION turning with height (Ekman-like: u and v have different shapes), diffusivities as in "power"
+        sp = lambda z: 2.2 * z**0.25  # noqa
+        ang = lambda z: np.radians(20.0 + 35.0 * (np.asarray(z, dtype=float) - 0.5) / 19.5)  # noqa
+        return (lambda z: sp(z) * np.cos(ang(z)), lambda z: sp(z) * np.sin(ang(z)), lambda z: 0.3 * z**0.8 + 0.1, lambda z: 0.2 * z + 0.05, lambda z: 0.15 * z**0.9)
+    if name == "kxvar":
+        # wind and Kz constant with height, only the HORIZONTAL diffusivities vary: no closed form applies
+        c_ = lambda val: (lambda z: val + 0.0 * np.asarray(z, dtype=float))  # noqa
+        return (c_(2.3 * cu), c_(2.3 * cv), lambda z: 0.3 * z**0.8 + 0.1, lambda z: 0.2 * z + 0.05, c_(0.9))
     if name == "const":
         c = lambda val: (lambda z: val + 0.0 * np.asarray(z))  # noqa
         return (c(2.3 * cu), c(2.3 * cv), c(1.7), c(0.6), c(0.9))
@@ -76,6 +85,8 @@ def cases(tier):
         if fam == "const" and (zg == "geom" or o != "oblique"):
             continue
         yield {"kind": "func", "family": fam, "zgrid": zg, "dom": dom, "grid": g, "orient": o, "ns": ns}
+    for fam_, zg_, dom, g in itertools.product(("veer", "kxvar"), ("uniform", "geom"), doms, grids):
+        yield {"kind": "func", "family": fam_, "zgrid": zg_, "dom": dom, "grid": g, "orient": "oblique", "ns": ns}
     # smooth wall: output AT the surface node, inside the viscous-scale sub-layer and aloft
     for dom, g in itertools.product(doms, grids):
         yield {"kind": "func", "family": "smoothwall", "zgrid": "geom", "dom": dom, "grid": g, "orient": "oblique", "ns": (64, 256, 1024), "z0": 1e-5, "lvfrac": [0.0, 0.125, 0.5]}
